@@ -220,6 +220,9 @@ class MetadorNode(wrapt.ObjectProxy):
     @property
     def meta(self) -> MetadorMeta:
         """Access the interface to metadata attached to this node."""
+        if M.is_internal_path(self.name):
+            # (e.g. the node of a stored metadata object as handed out by values())
+            raise ValueError(f"Not a user node, it has no metadata: {self.name}")
         return MetadorMeta(self)
 
     @property
@@ -531,6 +534,9 @@ class MetadorGroup(MetadorNode):
             self._guard_path(source)
             src_node = self[source]
         elif isinstance(source, MetadorNode):
+            if M.is_internal_path(source.name):
+                msg = f"Trying to use a Metador-internal node: '{source.name}'"
+                raise ValueError(msg)
             src_node = source
         else:
             raise ValueError("Copy source must be path, Group or Dataset!")
